@@ -1105,6 +1105,36 @@ func (ev *Evaluator) binop(op token.Token, x, y Val, pos token.Pos) (Val, error)
 		if r, ok := bitsCmpConst(op, x, y); ok {
 			return Const{constant.MakeBool(r)}, nil
 		}
+		// arrays compare element by element: [a,b,c] == [x,y,z] ⇔ a==x && b==y && c==z
+		if ax, ok := x.(*ArrayV); ok && (op == token.EQL || op == token.NEQ) {
+			if ay, ok := y.(*ArrayV); ok && ax.Len == ay.Len && ax.Len > 0 && int64(len(ax.Elems)) == ax.Len && int64(len(ay.Elems)) == ay.Len {
+				all := true
+				for i := int64(0); i < ax.Len; i++ {
+					r, err := ev.binop(token.EQL, ax.Elems[i].V, ay.Elems[i].V, pos)
+					if err != nil {
+						return nil, err
+					}
+					c, isC := r.(Const)
+					if !isC || c.V == nil || c.V.Kind() != constant.Bool {
+						return nil, &Undecided{pos, fmt.Sprintf("array comparison %v %s %v: element %d not decided", x, op, y, i)}
+					}
+					if !constant.BoolVal(c.V) {
+						all = false
+						break
+					}
+				}
+				return Const{constant.MakeBool(all == (op == token.EQL))}, nil
+			}
+		}
+		// the sign of a difference of two values that were widened before the subtraction (int64(a)−int64(b) with a, b
+		// of 32 bits or fewer; int(x)−int(y) of bytes) is the order of the two values: no wrap-around is possible
+		if tx, ok := x.(Term); ok && tx.Fn == "-" && len(tx.Args) == 2 && oky && cy.V != nil && cy.V.Kind() == constant.Int && cy.V.ExactString() == "0" {
+			if wa, okA := widenedFrom(tx.Args[0]); okA {
+				if wb, okB := widenedFrom(tx.Args[1]); okB && wa < 63 && wb < 63 {
+					return ev.binop(op, tx.Args[0], tx.Args[1], pos)
+				}
+			}
+		}
 		// two sortable keys packing the same fields at the same positions
 		if bx, ok := x.(Bits); ok {
 			if by, ok := y.(Bits); ok {
@@ -1904,4 +1934,28 @@ func foldPure(name string, args []Val) (Val, bool) {
 		}
 	}
 	return nil, false
+}
+
+// widenedFrom: v is a bit vector that extends (by sign or by zeros) a narrower value: returns the number of
+// significant bits (sign bit included), so that differences of two such values cannot wrap in the wider type.
+func widenedFrom(v Val) (int, bool) {
+	b, ok := v.(Bits)
+	if !ok || len(b.B) < 2 {
+		return 0, false
+	}
+	top := b.B[len(b.B)-1]
+	n := len(b.B)
+	for n > 1 {
+		cur, below := b.B[n-1], b.B[n-2]
+		same := cur.K == top.K && (cur.K == '0' || cur.K == 's' && cur.Sym == top.Sym && cur.Idx == top.Idx) &&
+			(below.K == cur.K && (cur.K == '0' || below.Sym == cur.Sym && below.Idx == cur.Idx))
+		if !same {
+			break
+		}
+		n--
+	}
+	if n >= len(b.B) {
+		return 0, false
+	}
+	return n + 1, true
 }
